@@ -1,5 +1,7 @@
 import Mainchain.Lemmas.Fine
 import Mainchain.Lemmas.StreamInv
+import Mainchain.Model.Pure
+import Mainchain.Lemmas.RegistryInv
 /-
 C13 — Every state-changing message takes effect only for its entitled signer.
 
@@ -237,6 +239,44 @@ theorem c13_proposal_only_by_governance (wall : Nat) (s : State) (msgs : List Ms
     intro _ m hm
     simpa using List.all_eq_true.mp hall m hm
   · intro h; cases h
+
+/-- **The owner gate, whatever string is stored as the owner** (`IsAuthorisedToRecord`, the only gate in front of records and
+storage purchases): it lets `a` through for registration `id` exactly when the registration exists and its stored owner string
+DECODES to `a`.  In particular a registration whose stored owner does not decode under the chain's address prefix — it can
+only have come in through a genesis file: a foreign prefix, a typo, an empty string — is open to nobody.  (The registry state
+is arbitrary here, not only a reachable one: registrations written by `InitGenesis` are covered.) -/
+theorem c13_owner_gate_for_any_stored_owner (r : RegState) (id : Nat) (a : Addr) :
+    (∃ m, r.ownedBy id a = .ok m) ↔ (∃ m, find? r.regs id = some m ∧ m.owner.decode = some a) := by
+  constructor
+  · rintro ⟨m, h⟩
+    exact ⟨m, ownedBy_ok r id a m h⟩
+  · rintro ⟨m, hm, hd⟩
+    exact ⟨m, by simp [RegState.ownedBy, hm, hd]⟩
+
+theorem c13_undecodable_owner_authorises_nobody (r : RegState) (id : Nat) (m : RegMeta) (hm : find? r.regs id = some m)
+    (hbad : m.owner = .bad ∨ m.owner = .empty) (a : Addr) : ∀ m', r.ownedBy id a ≠ .ok m' := by
+  intro m' h
+  obtain ⟨hm', hd⟩ := ownedBy_ok r id a m' h
+  rw [hm] at hm'; cases hm'
+  rcases hbad with hb | hb <;> simp [hb, AddrTok.decode] at hd
+
+/-- the function the pure engine runs against the keeper's `IsAuthorisedToRecord` (`ownergate` requests: 2 modules × 19
+stored spellings × 3 recorders, the whole table every run) is that gate -/
+theorem c13_owner_gate_request_is_the_gate (k : RegKind) (own : Option AddrTok) (a : Addr) :
+    Pure.ownerGate k own a = true ↔ ∃ o, own = some o ∧ o.decode = some a := by
+  unfold Pure.ownerGate
+  cases own with
+  | none => simp [RegState.ownedBy, find?]
+  | some o =>
+    cases hd : o.decode with
+    | none => simp [RegState.ownedBy, find?, hd]
+    | some b =>
+      by_cases hb : b = a
+      · subst hb; simp [RegState.ownedBy, find?, hd]
+      · simp [RegState.ownedBy, find?, hd, hb]
+
+example : Pure.ownerGate .bcn (some .bad) 3 = false ∧ Pure.ownerGate .bcn (some (.ok 3 true)) 3 = true ∧
+    Pure.ownerGate .wrk (some (.ok 2 false)) 3 = false ∧ Pure.ownerGate .wrk none 3 = false := by decide
 
 end C13
 end Mainchain
